@@ -720,3 +720,103 @@ Proof.
     destruct (ns_connected_pre c s 0 Hwf (ns_inv_pre c s Hi Ho)) as (_ & E & _).
     exists txs. split; [exact A1|]. split; [exact A2|exact E].
 Qed.
+
+(* ---------------------------------------------------------------- message ids stay distinct *)
+Definition ns_cmn (x : Z) (l : list ns_node) : nat := ns_cm x (map ns_nmsg l).
+
+Definition ns_budget (s : ns_st) (evs : list ns_ev) : Prop :=
+  forall x, (ns_cmn x (ns_dq s) + ns_cmn x (ns_sq s) + count_occ Z.eq_dec (ns_sub_mids evs) x <= 1)%nat.
+
+Lemma ns_cm_filter x p l : (ns_cm x (filter p l) <= ns_cm x l)%nat.
+Proof.
+  induction l as [|h t IH]; [apply le_n|]. cbn [filter].
+  replace (h :: t) with ([h] ++ t) by reflexivity. rewrite ns_cm_app.
+  destruct (p h); [replace (h :: filter p t) with ([h] ++ filter p t) by reflexivity;
+                   rewrite ns_cm_app|]; lia.
+Qed.
+
+Lemma ns_cm_rm x mid l : (ns_cm x (ns_rm_mid mid l) <= ns_cm x l)%nat.
+Proof.
+  induction l as [|h t IH]; [apply le_n|]. cbn [ns_rm_mid].
+  replace (h :: t) with ([h] ++ t) by reflexivity. rewrite ns_cm_app.
+  destruct (ns_mid h =? mid); [lia|].
+  replace (h :: ns_rm_mid mid t) with ([h] ++ ns_rm_mid mid t) by reflexivity.
+  rewrite ns_cm_app. lia.
+Qed.
+
+Lemma ns_cmn_filter x p l : (ns_cmn x (filter p l) <= ns_cmn x l)%nat.
+Proof.
+  unfold ns_cmn. induction l as [|h t IH]; [apply le_n|]. cbn [filter map].
+  replace (ns_nmsg h :: map ns_nmsg t) with ([ns_nmsg h] ++ map ns_nmsg t) by reflexivity.
+  rewrite ns_cm_app. destruct (p h); cbn [map]; [|lia].
+  replace (ns_nmsg h :: map ns_nmsg (filter p t)) with ([ns_nmsg h] ++ map ns_nmsg (filter p t))
+    by reflexivity.
+  rewrite ns_cm_app. lia.
+Qed.
+
+Lemma ns_rel_budget x s s' base txs : ns_rel s s' base txs ->
+  (ns_cmn x base <= ns_cmn x (ns_sq s))%nat ->
+  (ns_cmn x (ns_dq s') + ns_cmn x (ns_sq s') <= ns_cmn x (ns_dq s) + ns_cmn x (ns_sq s))%nat.
+Proof.
+  intros (_ & A2 & A3) Hb. unfold ns_cmn in *. rewrite A2, A3, !ns_cm_app.
+  pose proof (ns_cm_filter x ns_con txs). lia.
+Qed.
+
+Lemma ns_sub_mids_count e r x :
+  (count_occ Z.eq_dec (ns_sub_mids r) x <= count_occ Z.eq_dec (ns_sub_mids (e :: r)) x)%nat.
+Proof. destruct e; cbn [ns_sub_mids count_occ]; try lia. destruct (Z.eq_dec (ns_mid m) x); lia. Qed.
+
+Lemma ns_step_budget c s e r : ns_wf c -> ns_inv c s ->
+  ns_budget s (e :: r) -> ns_budget (fst (ns_step c s e)) r.
+Proof.
+  intros Hwf Hi Hb x. specialize (Hb x). pose proof (ns_sub_mids_count e r x) as Hc.
+  destruct (ns_open s) eqn:Ho.
+  2: { unfold ns_step. rewrite Ho. cbn [negb]. destruct e; ns_simp; lia. }
+  pose proof (ns_step_char c s e Hwf Hi Ho) as H. cbn zeta in H.
+  destruct e as [m|mid|mid|mid|tok| |rr].
+  - clear H Hc. unfold ns_step. rewrite Ho. cbn [negb]. unfold ns_submit.
+    cbn [ns_sub_mids count_occ] in Hb.
+    destruct (negb (ns_est s) || ns_con m && (ns_nstart c <=? ns_act s)).
+    + destruct (existsb _ (ns_dq s)); ns_simp.
+      * destruct (Z.eq_dec (ns_mid m) x); lia.
+      * unfold ns_cmn in *. rewrite map_app, ns_cm_app. unfold ns_cm at 2.
+        cbn [map ns_nmsg count_occ]. destruct (Z.eq_dec (ns_mid m) x); lia.
+    + destruct (ns_con m); ns_simp.
+      * unfold ns_cmn in *. rewrite map_app, ns_cm_app. unfold ns_cm at 3.
+        cbn [map ns_nmsg count_occ]. destruct (Z.eq_dec (ns_mid m) x); lia.
+      * destruct (Z.eq_dec (ns_mid m) x); lia.
+  - destruct (ns_remove mid (ns_sq s)) as [[n q]|] eqn:Er.
+    + destruct H as (txs & _ & Hr & _).
+      pose proof (ns_rel_budget x _ _ _ _ Hr) as Hrb.
+      destruct (ns_remove_some _ _ _ _ Er) as (_ & _ & _ & _ & A5 & _).
+      unfold ns_cmn in Hrb at 1. rewrite A5 in Hrb.
+      pose proof (ns_cm_rm x mid (map ns_nmsg (ns_sq s))). unfold ns_cmn in *. lia.
+    + destruct H as [E _]. rewrite E. lia.
+  - destruct (ns_remove mid (ns_sq s)) as [[n q]|] eqn:Er.
+    + destruct H as (txs & _ & Hr & _).
+      pose proof (ns_rel_budget x _ _ _ _ Hr) as Hrb.
+      destruct (ns_remove_some _ _ _ _ Er) as (_ & _ & _ & _ & A5 & _).
+      unfold ns_cmn in Hrb at 1. rewrite A5 in Hrb.
+      pose proof (ns_cm_rm x mid (map ns_nmsg (ns_sq s))). unfold ns_cmn in *. lia.
+    + destruct H as [E _]. rewrite E. lia.
+  - destruct (ns_remove mid (ns_sq s)) as [[n q]|] eqn:Er.
+    + destruct H as [(_ & Hr & _)|(txs & _ & Hr & _)].
+      * pose proof (ns_rel_budget x _ _ _ _ Hr (le_n _)). lia.
+      * pose proof (ns_rel_budget x _ _ _ _ Hr) as Hrb.
+        destruct (ns_remove_some _ _ _ _ Er) as (_ & _ & _ & _ & A5 & _).
+        unfold ns_cmn in Hrb at 1. rewrite A5 in Hrb.
+        pose proof (ns_cm_rm x mid (map ns_nmsg (ns_sq s))). unfold ns_cmn in *. lia.
+    + destruct H as [E _]. rewrite E. lia.
+  - destruct H as (txs & _ & Hr & _).
+    pose proof (ns_rel_budget x _ _ _ _ Hr (ns_cmn_filter x _ _)). lia.
+  - destruct H as (txs & _ & Hr & _).
+    pose proof (ns_rel_budget x _ _ _ _ Hr (le_n _)). lia.
+  - unfold ns_step. rewrite Ho. cbn [negb]. unfold ns_fail.
+    destruct (rr =? ns_ICMP); ns_simp; [lia|]. unfold ns_cmn, ns_cm. cbn [map count_occ]. lia.
+Qed.
+
+Lemma ns_init_budget e evs : NoDup (ns_sub_mids evs) -> ns_budget (ns_init e) evs.
+Proof.
+  intros H x. rewrite (NoDup_count_occ Z.eq_dec) in H. specialize (H x).
+  unfold ns_cmn, ns_cm. cbn. lia.
+Qed.
